@@ -249,6 +249,85 @@ Theorem C15_tag_schema :
 Proof. exact tag_schema_spec. Qed.
 Print Assumptions C15_tag_schema.
 
+(* ---------- Repository.Referrers: capability detection around the two paths ---------- *)
+
+(* api = the run of referrersByAPI, ts = the run of referrersByTagSchema.  The callback
+   arguments come from exactly one of the two paths (the tag schema is run from the unknown
+   state only when the API answered "unsupported" before anything was delivered); the
+   capability never changes once set; from unknown it becomes supported exactly on a
+   successful API listing and unsupported exactly when the tag schema was used. *)
+Theorem C15_referrers_capability :
+  forall st cbu (api : trace) ts,
+    let w := referrers_wrap st cbu api ts in
+    ((w_fell_back w = false /\ w_pages w = t_pages api /\ w_out w = t_out api) \/
+     (w_fell_back w = true /\ w_pages w = fst (ts 0%nat) /\ w_out w = snd (ts 0%nat) /\
+      (st = RUnknown -> t_pages api = [] /\ unsupported_class cbu (t_out api) = true))) /\
+    (st <> RUnknown -> w_state w = st) /\
+    (st = RUnknown ->
+       (w_state w = RSupported <-> t_out api = Done) /\
+       (w_state w = RUnsupported <-> w_fell_back w = true) /\
+       (w_state w = RUnknown <-> (t_out api <> Done /\ w_fell_back w = false))) /\
+    (st = RUnsupported -> w_fell_back w = true) /\
+    (st = RSupported -> w_fell_back w = false).
+Proof. exact wrap_spec. Qed.
+Print Assumptions C15_referrers_capability.
+
+(* whatever the callback's error is (also one of the class errdef.ErrUnsupported), it is
+   what Referrers returns, and no callback is invoked afterwards *)
+Theorem C15_referrers_callback_error :
+  forall serve resolve cb_fail c fuel u st cbu ts,
+    st <> RUnsupported ->
+    let api := loop serve resolve cb_fail c fuel 0 0 u [] in
+    t_out api = ErrCallback ->
+    let w := referrers_wrap st cbu api ts in
+    w_out w = ErrCallback /\ w_pages w = t_pages api /\ w_fell_back w = false.
+Proof. exact wrap_callback_error. Qed.
+Print Assumptions C15_referrers_callback_error.
+
+(* the code before the fix (model referrers_wrap_prefix): a callback error of the unsupported
+   class was swallowed, the tag schema run, a referrer delivered twice, success returned *)
+Theorem C15_referrers_fallback_refuted :
+  exists (cb_fail : nat -> bool),
+    let api := loop (reg_serve KReferrers wit_L 5 wit_ds wit_render (fun _ => [])) wit_resolve
+                    cb_fail wit_cfg 9 0 0 wit_u [] in
+    let w := referrers_wrap_prefix RUnknown true api (wit_ts cb_fail) in
+    t_out api = ErrCallback /\ w_out w = Done /\ w_state w = RUnsupported /\
+    ~ NoDup (map fst (concat (w_pages w))).
+Proof. exact wrap_prefix_refuted. Qed.
+Print Assumptions C15_referrers_fallback_refuted.
+
+(* the referrers response must carry exactly the index media type (no parameters, no other
+   spelling); a 404 means "no referrers API" unless it says NAME_UNKNOWN *)
+Theorem C15_content_type_exact :
+  forall c rs, c_kind c = KReferrers -> rs_status rs = 200 ->
+    (rs_ctype rs <> mediaTypeImageIndex -> handle c rs = inl ErrCType) /\
+    (forall p, handle c rs = inr p -> rs_ctype rs = mediaTypeImageIndex).
+Proof. exact handle_ctype. Qed.
+Print Assumptions C15_content_type_exact.
+
+Theorem C15_referrers_404 :
+  forall c rs, c_kind c = KReferrers -> rs_status rs = 404 ->
+    handle c rs = inl (if rs_name_unknown rs then ErrStatus else ErrUnsupported).
+Proof. exact handle_404. Qed.
+Print Assumptions C15_referrers_404.
+
+(* ---------- several link-values / Link lines ---------- *)
+
+(* Only the first Link line is read (rs_link = hd), and of it the first "<...>"
+   (C15_parse_link): whatever follows the next link -- further link-values, further lines --
+   does not matter (C15_exactly_once quantifies over the trailer).  A link-value of another
+   relation type BEFORE the next link is followed instead of it (known finding
+   link-rel-ignored): the listing re-reads the first page and does not end. *)
+Theorem C15_link_rel_first_refuted :
+  exists fuel,
+    let t := loop relfirst_serve wit_resolve (fun _ => false) (mkCfg KTags 0 0 []) fuel 0 0
+                  (mkUrl (b "/v2/r/tags/list") []) [] in
+    t_out t = OutOfFuel /\ ~ NoDup (map fst (concat (t_pages t))) /\
+    (forall rq, In rq (t_reqs t) -> exists pre, rs_link (relfirst_serve 0 rq) =
+         pre ++ c_lt :: b "a" ++ c_gt :: b "; rel=""next""").
+Proof. exact link_rel_first_refuted. Qed.
+Print Assumptions C15_link_rel_first_refuted.
+
 (* ---------- content/oci ---------- *)
 
 (* listTags: ascending; each non-digest reference greater than last exactly as often as the
